@@ -122,3 +122,54 @@ def any_avp_shape():
 
 
 ANY_VALUE = lambda: T.OneOf(T.Int(), T.Bytes(), T.NoneS, T.Str(), T.Bool(), T.OpaqueS())   # noqa: E731
+
+
+# =========================================================================================
+#  sequences of AVPs: element kind, folds, lemmas
+# =========================================================================================
+from pyvc.seqs import ElemKind, Field, fold           # noqa: E402
+from pyvc.spec import use_lemma                       # noqa: E402
+from pyvc.api import lemma                            # noqa: E402
+from bromelia.avps.ietf.rfc6733 import UserNameAVP as _DictShapeClass    # noqa: E402
+
+
+def avp_elem_valid(a):
+    """representation invariant of a listed AVP + the 24-bit ceiling of the AVP Length field"""
+    return avp_len(view_vendor(a), data_of(a)) < MAX24
+
+
+AVP_ELEM = ElemKind("avp", [
+    ("generic", B.DiameterAVP, {
+        "_code": Field(("bytesn", 4)), "_flags": Field(("bytesn", 1)),
+        "_vendor_id": Field(("opt", Field(("bytesn", 4)))),
+        "_data": Field(("opt", Field(("bytes",)))), "_padding": Field(("none",))}),
+    ("dict", _DictShapeClass, {
+        "_flags": Field(("bytesn", 1)), "_vendor_id": Field(("opt", Field(("bytesn", 4)))),
+        "_data": Field(("opt", Field(("bytes",)))), "_padding": Field(("none",)),
+        "code": Field(("bytesn", 4), "idict"),
+        "vendor_id": Field(("opt", Field(("bytesn", 4))), "idict")}),
+], valid=avp_elem_valid)
+
+plen_of = lambda a: avp_plen(view_vendor(a), data_of(a))      # noqa: E731
+
+
+def _plen_of(a):
+    return avp_plen(view_vendor(a), data_of(a))
+
+
+cat = fold("cat", enc_of, "bytes")          # concatenated reference encodings of a list of AVPs
+slen = fold("slen", _plen_of, "int")        # sum of their on-wire sizes (length + padding)
+
+
+@lemma("cat_len", prop="C01", over=AVP_ELEM)
+def cat_len(s):
+    """|cat(s)| == slen(s), a non-negative multiple of 4"""
+    return len(cat(s)) == slen(s) and slen(s) % 4 == 0 and slen(s) >= 0
+
+
+def msg_shape(cls=None, loaded=None, header=None):
+    """a DiameterMessage with any header, any list of valid AVPs and any further named entries"""
+    return T.Obj(cls or B.DiameterMessage,
+                 idict={"_header": header or header_shape(), "_avps": T.Seq(AVP_ELEM),
+                        "_loaded": loaded if loaded is not None else T.Bool()},
+                 open_dict=True, excluded=("_header", "_avps", "_loaded"))
